@@ -238,6 +238,26 @@ package raft
 //@   ensures [C18.truncated-is-error] (result0 == nil) == (21 <= old(Avail(r)) && 21 + gword32(rdata[ref(r)], old(rpos[ref(r)]) + 17) <= old(Avail(r)))
 //@   ensures [C18.dec-frame] ConsumedSome(r)
 
+// installSnapReq: header (16) | lastIndex (8) | lastTerm (8) | the configuration entry | size (8)
+//@ func (*installSnapReq).decode
+//@   requires r != nil
+//@   modifies rpos, all(req), entry.index, entry.term, entry.typ, entry.data, elems(uint8), contents(req.lastConfig.Nodes)
+//@   ensures [C18.installreq-dec] result0 == nil ==> EncReq(rdata[ref(r)], old(rpos[ref(r)]), req.term, req.src) && req.lastIndex == gword(rdata[ref(r)], old(rpos[ref(r)]) + 16) && req.lastTerm == gword(rdata[ref(r)], old(rpos[ref(r)]) + 24)
+//@   ensures [C18.installreq-size] result0 == nil ==> rpos[ref(r)] >= old(rpos[ref(r)]) + 61 && req.size == ite(gword(rdata[ref(r)], rpos[ref(r)] - 8) >= 9223372036854775808, gword(rdata[ref(r)], rpos[ref(r)] - 8) - 18446744073709551616, gword(rdata[ref(r)], rpos[ref(r)] - 8))
+//@   ensures [C18.truncated-is-error] result0 == nil ==> rpos[ref(r)] <= rend[ref(r)] || old(rpos[ref(r)]) > old(rend[ref(r)])
+//@   ensures [C18.dec-frame] ConsumedSome(r)
+
+// STUB (the configuration codec is not under contract yet): a fresh entry carrying the configuration
+//@ func (Config).encode
+//@   trusted
+//@   ensures result0 != nil && isfresh(result0) && result0.index == c.Index && result0.term == c.Term && result0.typ == entryConfig
+
+//@ func (*installSnapReq).encode
+//@   requires w != nil
+//@   modifies wdata, wlen
+//@   ensures [C18.installreq-enc] result0 == nil ==> EncReq(wdata[ref(w)], old(wlen[ref(w)]), req.term, req.src) && gword(wdata[ref(w)], old(wlen[ref(w)]) + 16) == req.lastIndex && gword(wdata[ref(w)], old(wlen[ref(w)]) + 24) == req.lastTerm
+//@   ensures [C18.enc-frame] WroteSome(w)
+
 // ---- responses ---------------------------------------------------------------------------
 
 //@ pure EncResp(d int, p int, v *resp) bool = gword(d, p) == v.term && d[p+8] == v.result
